@@ -547,6 +547,23 @@ class Judge:
                     self.viol("nested_eq_iff_children", spec, {"why": "specs with a different child compare equal", "field": first})
         except Exception as e:
             self.viol("nested_replace", spec, {"error": repr(e)[:200]})
+        # a nested spec with one more child has different children: it must not compare equal (the library may
+        # refuse the comparison by raising; what it must not do is answer True)
+        try:
+            first_leaf = next(l for _, l in SM.spec_leaves(spec))
+            bigger = spec.replace(zz_extra_child=first_leaf)
+            self.ev("nested_eq_extra_child")
+            for a_, b_ in ((spec, bigger), (bigger, spec)):
+                try:
+                    ans = bool(a_ == b_)
+                except Exception:
+                    ans = False
+                if ans:
+                    self.viol("nested_eq_iff_children", spec, {"why": "a nested spec compares equal to the same spec with one more child"}, qualifier="extra_child")
+        except StopIteration:
+            pass
+        except Exception as e:
+            self.rep.notes.append("nested extra-child construction failed: " + repr(e)[:120])
         if make_twin is not None:
             self.ev("nested_eq_iff_children")
             twin = make_twin()
